@@ -37,6 +37,14 @@ def pipeline(nw=1, retry_max=None, delay=0, fail_until=0, timeout=None, exc="Val
     }}
 
 
+def saturated_retry(wait, n=2, retry_max=3, nw=1):
+    """a sends n events A to b (nw workers, always failing, growing retry delays): a retry that comes due while b is busy
+    with the other event waits in b's queue before it runs."""
+    p = fanout(nw, n, retry_max, 0, 99)
+    p["steps"]["b"]["retry"]["wait"] = wait
+    return p
+
+
 def overlap(nw_b=1, nw_c=2, n=2):
     """a sends n events A; both b and c accept A (broadcast to two accepting steps); d collects."""
     return {"timeout": None, "steps": {
@@ -377,6 +385,11 @@ def family(name, quick=True):
         out.append(("incr(1,2,max=4)", pipeline(retry_max=5, wait=["incr", 1, 2, 4], fail_until=99), []))
         out.append(("fixed(3)", pipeline(retry_max=3, wait=["fixed", 3], fail_until=99), []))
         out.append(("fixed(timedelta 1500ms)", pipeline(retry_max=3, wait=["fixed_td", 1500], fail_until=99), []))
+    elif name == "waits_queue":
+        out.append(("saturated incr(1,2,max=100)", saturated_retry(["incr", 1, 2, 100]), []))
+        out.append(("saturated exp(1,3,max=100)", saturated_retry(["exp", 1, 3, 100]), []))
+        if not quick:
+            out.append(("saturated chain(1,4,9) n=3", saturated_retry(["chain", [1, 4, 9]], n=3), []))
     return out
 
 
